@@ -3,6 +3,7 @@
 // yields timed_out"). The helper writes position-coded bytes to stdout/stderr in random chunks.
 //
 // usage: cxxio <vchild> <scratch> <worker> <nworkers> <tier> <seed>
+#include <signal.h>
 #include <sys/stat.h>
 #include <unistd.h>
 
@@ -119,9 +120,21 @@ static uint64_t rnd()
   return rs;
 }
 
+static long g_cur_case = -1;
+static void on_alarm(int)
+{
+  // a case stuck in real time: inconclusive for this pass (exit 3), the limit is generous
+  char m[96];
+  int n = snprintf(m, sizeof m, "W\twatchdog\tcase=%ld did not finish within 90 s\n", g_cur_case);
+  if (write(1, m, static_cast<size_t>(n)) < 0) {}
+  _exit(3);
+}
+
 static void one_case(long idx)
 {
   st_cases++;
+  g_cur_case = idx;
+  alarm(90);
   wrap_reset_case();  // the interposition layer keeps a bounded table of children per case
   long nout = static_cast<long>(rnd() % 5 == 0 ? rnd() % 300000 : rnd() % 9000);
   long nerr = static_cast<long>(rnd() % 4 == 0 ? 0 : rnd() % 6000);
@@ -219,6 +232,7 @@ static void one_case(long idx)
     st_runs++;
     if (res.second || res.first != code) viol("run-status-wrong", idx, "run(args, options) returned " + std::to_string(res.first) + ", child exits with " + std::to_string(code));
   }
+  alarm(0);
   std::string cmd = "rm -rf '" + g_scratch + "/x" + std::to_string(idx) + "'";
   if (system(cmd.c_str()) != 0) {}
 }
@@ -228,6 +242,7 @@ int main(int argc, char **argv)
   if (argc < 7) return 2;
   wrap_init();
   wrap_reset_case();
+  signal(SIGALRM, on_alarm);
   char *rp = realpath(argv[1], nullptr);
   g_vchild = rp ? rp : argv[1];
   g_scratch = argv[2];
